@@ -104,6 +104,7 @@ func (w *World) RunJob(spec JobSpec, o JobOpts) (res *JobResult) {
 	if lf := os.Getenv("SYMGO_SMTLOG"); lf != "" {
 		if f, err := os.Create(lf); err == nil {
 			solver.Log = f
+			fmt.Fprintf(f, "(set-option :produce-models true)\n(set-option :global-declarations true)\n(set-logic QF_BV)\n")
 			defer f.Close()
 		}
 	}
@@ -137,7 +138,7 @@ func (w *World) RunJob(spec JobSpec, o JobOpts) (res *JobResult) {
 		res.Nodes = ctx.NumNodes()
 		res.Assumes = x.Assumes
 		res.SolverErrs = solver.Errors
-		res.Slow = append(solver.Slow, fmt.Sprintf("define=%v wait=%v model=%v sat=%d unsat=%d lazyforks=%d lazydropped=%d", solver.TDefine, solver.TWait, solver.TModel, solver.SatN, solver.UnsatN, x.LazyForks, x.LazyDropped))
+		res.Slow = append(solver.Slow, fmt.Sprintf("define=%v wait=%v model=%v sat=%d unsat=%d lazyforks=%d lazydropped=%d box=%d pool=%d", solver.TDefine, solver.TWait, solver.TModel, solver.SatN, solver.UnsatN, x.LazyForks, x.LazyDropped, x.BoxDecided, x.PoolHits))
 		for _, f := range x.Findings {
 			res.Findings = append(res.Findings, FindingOut{Kind: f.Kind, Msg: f.Msg, Pos: f.Pos, Known: f.Known, Unknown: f.Unknown, Inputs: x.inputsFromModel(f.Model)})
 		}
